@@ -4,7 +4,7 @@ What is simulated is the WIRING of the timeout. The matching entry points of the
 functions and methods of compiled patterns) are rebound, before smartquery is imported, to a recording facade with a
 virtual clock: every engine entry advances the clock by the timeout it was given when that is a finite positive
 number and by +infinity otherwise - the worst case for an adversarial subject, ASSUMING the engine honours its
-timeout - and then delegates to the real engine with a 20 ms real timeout so that results stay realistic. The wall
+timeout - and then delegates to the real engine on the first 14 characters of the subject (always fast, so that results stay realistic for short subjects and nothing depends on a real clock). The wall
 clock the library can read through `time` is the same virtual clock; a scripted host function wait(s) lets virtual
 time pass between calls inside one evaluation. What cannot be simulated: the clock that enforces the timeout lives in
 _regex.c, and pattern compilation runs before any timeout exists (listed known finding, re-confirmed by a bounded
@@ -44,7 +44,7 @@ EXPLANATION = ('Partial: the timeout WIRING of every regex-reaching builtin call
 ASSUMPTIONS = ['the regex engine honours timeout= (its clock is clock() inside _regex.c and cannot be put behind a Python seam)',
                'pattern compilation is not covered by any timeout (known finding C05-compile-unbounded)',
                'the time allowance may grow linearly with the lengths of pattern and subject, at most 1e-5 s per character']
-REAL = ['smartquery.functions (regex builtins, flag parsing)', 'evaluator', 'regex engine for match RESULTS (20 ms real timeout)']
+REAL = ['smartquery.functions (regex builtins, flag parsing)', 'evaluator', 'regex engine for match RESULTS (on the first 14 characters of the subject)']
 STUB = ['regex engine for TIMING (virtual clock charged with the timeout passed)', 'wall clock read through time.*', 'host wait()']
 SIM_TIME = 'virtual seconds charged to regex engine entries and host waits (see counters virtual_ms)'
 REACH_PROBES = ('match', 'match_groups', 'match_all', 'flags', 'inside_lambda', 'long_subject', 'nested_quantifier', 'two_groups',
